@@ -1,3 +1,5 @@
+\* one channel: 263,292 distinct / 5,294,724 generated states, depth 11, ~2 min with 8 idle workers
+\* (MaxOpen = 2: 351,056 distinct / 10,370,036 generated; every action taken, checked once with -coverage 1)
 SPECIFICATION Spec
 CONSTANTS
   Chans = {"c1"}
